@@ -102,6 +102,10 @@ func (ms *peerMessageSender) ctxReadMsg(ctx context.Context, mes *pb.Message) er
   ghostvar $verdict error = nil
   modifies *
   ensures [internal-success-only-on-a-delivered-clean-read] imp(result == nil, $got && $verdict == nil)
+  # every read attempt (also the retry's) is bounded by a timer armed for it
+  ghostvar $armed bool = false
+  ensures [internal-every-read-has-its-own-timeout] $armed
+  ghost at call(NewTimer): $armed = ($arg0 == dhtReadMessageTimeout)
   ghost at recv(errc): $got = true; $verdict = $msg
 
 funclit 0 in (ms *peerMessageSender) ctxReadMsg(ctx context.Context, mes *pb.Message) error
